@@ -222,7 +222,7 @@ def c09(run):
                         "TLC integers are 32-bit: periods explored <= 400"]
     trace_stage(run, "sbf-tables", "supply",
                 nontrivial=lambda e: e["in"]["supply"].get("Q", 1) < e["in"]["supply"].get("P", 1),
-                keyfn=lambda e: e["in"]["supply"])
+                keyfn=lambda e: (e["op"], e["in"]["supply"]))
     # R1: every placement of the budget (reservation automaton), every window position and length:
     # never less service than the recorded table claims, and the table is attained at every length
     world_stage(run, "placements", "resv", "MCReservation.tla", "MCReservation.cfg", slim=("id", "Q", "D", "P", "sbf"),
